@@ -20,8 +20,8 @@ type Prog struct {
 	Fset     *token.FileSet
 	Pkgs     []*packages.Package // the module's own (initial) packages
 	SSA      *ssa.Program
-	SSAPkgs  []*ssa.Package        // SSA of the initial packages
-	Funcs    []*ssa.Function       // every source function (incl. closures, methods) of the initial packages, sorted
+	SSAPkgs  []*ssa.Package  // SSA of the initial packages
+	Funcs    []*ssa.Function // every source function (incl. closures, methods) of the initial packages, sorted
 	byName   map[string]*ssa.Function
 	AllSSA   bool // dependencies were loaded from source too
 	NumFiles int
